@@ -18,6 +18,8 @@ const c08Index = "ix"
 // c08Op is one step of a history. Kinds:
 //
 //	add      VAdd(ix, ID, Vec, Meta)            (skipped when ID is live)
+//	batch    VAddBatch(ix, Items)               (skipped unless every item id is distinct and not live)
+//	import   VImport(ix, Items) + SaveSnapshot  (the synchronous half of VImportCommit; same applicability)
 //	set      VSetMetadata(ix, ID, Meta) = merge (skipped when ID is not live)
 //	del      VDelete(ix, ID)                    (skipped when ID is not live)
 //	vacuum   VTriggerMaintenance(ix, "vacuum")
@@ -26,11 +28,21 @@ const c08Index = "ix"
 //	compress VCompress(ix, "float16")           (skipped when the index is empty or already compressed)
 //	restart  Close() + Open()
 //
-// After every executed step all filters of the case are evaluated.
+// After every executed step all filters of the case are evaluated (except after Quiet steps: the
+// warm-up adds that only bring the index to the size at which batches take the parallel insert path).
 type c08Op struct {
-	K    string         `json:"k"`
-	ID   string         `json:"id,omitempty"`
-	Vec  []float32      `json:"vec,omitempty"`
+	K     string         `json:"k"`
+	ID    string         `json:"id,omitempty"`
+	Vec   []float32      `json:"vec,omitempty"`
+	Meta  map[string]any `json:"meta,omitempty"`
+	Items []c08Item      `json:"items,omitempty"`
+	Quiet bool           `json:"quiet,omitempty"`
+}
+
+// c08Item is one element of a batch / import. An empty Meta is handed over as a nil map.
+type c08Item struct {
+	ID   string         `json:"id"`
+	Vec  []float32      `json:"vec"`
 	Meta map[string]any `json:"meta,omitempty"`
 }
 
@@ -59,7 +71,21 @@ type c08Case struct {
 	// GoInt: integral numbers are handed to the embedded API as Go int instead of the JSON
 	// number type float64. Outside the documented (JSON-typed) domain: reported, not asserted.
 	GoInt bool `json:"go_int,omitempty"`
+	// EfC: ef_construction of the index (0 = the default 200). VAddBatch inserts one by one while the
+	// index has handed out fewer than ef_construction internal ids and in parallel afterwards
+	// (VImport: max(40, 2*M) ids), so a small value makes the parallel path reachable by short histories.
+	EfC int `json:"efc,omitempty"`
 }
+
+func (c c08Case) efC() int {
+	if c.EfC > 0 {
+		return c.EfC
+	}
+	return 200
+}
+
+const c08M = 16               // M of the index
+const c08ImportThreshold = 40 // max(40, 2*M): size from which VImport inserts in parallel
 
 // ---------------------------------------------------------------- rendering
 
@@ -107,6 +133,11 @@ func c08NumClauses(f c08Filter) int {
 // ---------------------------------------------------------------- value pools
 
 var c08IDs = []string{"a", "b", "c", "d", "e", "f", "g", "h"}
+
+// ids that only batches / imports hand out (together with the non-live ids above), and the warm-up ids
+var c08BatchIDs = []string{"p", "q", "r", "s", "t", "u"}
+
+func c08WarmID(i int) string { return "w" + strconv.Itoa(i/10) + strconv.Itoa(i%10) }
 
 // keys with a preferred type (so that equal keys mostly carry comparable values) — every key can
 // still receive every type, which is what produces type-changing overwrites.
@@ -322,10 +353,13 @@ func c08GenVec(t *rapid.T) []float32 {
 // c08Resolve. Drawing the history as a plain slice of such ops lets rapid shrink it by deleting
 // elements; the saved case contains the resolved (concrete) ops only.
 type c08Raw struct {
-	K    string
-	Pick int
-	Vec  []float32
-	Meta map[string]any
+	K     string
+	Pick  int
+	Vec   []float32
+	Meta  map[string]any
+	Items []c08Item // batch / import: vectors and metadata, ids are assigned by c08Resolve
+	ID    string    // add: fixed id (warm-up)
+	Quiet bool
 }
 
 var c08Tails = [][]string{
@@ -363,10 +397,12 @@ func c08Resolve(raw []c08Raw) []c08Op {
 					cand = append(cand, id)
 				}
 			}
-			if len(cand) == 0 {
+			if len(cand) == 0 && r.ID == "" {
 				continue
 			}
-			if r.Pick%3 == 0 { // a third of the adds prefer a deleted id, the others a fresh one
+			if r.ID != "" {
+				op.ID, op.Quiet = r.ID, r.Quiet
+			} else if r.Pick%3 == 0 { // a third of the adds prefer a deleted id, the others a fresh one
 				op.ID = cand[0]
 			} else {
 				op.ID = cand[len(cand)-1-(r.Pick%len(cand))]
@@ -374,6 +410,25 @@ func c08Resolve(raw []c08Raw) []c08Op {
 			op.Vec, op.Meta = r.Vec, r.Meta
 			if op.Meta == nil {
 				op.Meta = map[string]any{}
+			}
+		case "batch", "import":
+			// the items take non-live ids (deleted ones included: re-add through a batch), starting at the Pick-th
+			var cand []string
+			for _, id := range c08IDs {
+				if m.Live[id] == nil {
+					cand = append(cand, id)
+				}
+			}
+			for _, id := range c08BatchIDs {
+				if m.Live[id] == nil {
+					cand = append(cand, id)
+				}
+			}
+			for j, it := range r.Items {
+				if j >= len(cand) {
+					break
+				}
+				op.Items = append(op.Items, c08Item{ID: cand[(r.Pick+j)%len(cand)], Vec: it.Vec, Meta: it.Meta})
 			}
 		case "set", "del":
 			ids := m.ids()
@@ -410,7 +465,12 @@ func c08GenCase() *rapid.Generator[c08Case] {
 			}
 			twin = &tw
 		}
-		kinds := []string{"add", "add", "add", "add", "set", "set", "set", "set", "set", "del", "del", "vacuum", "snapshot", "rewrite", "compress", "restart", "restart"}
+		// index size class: ef_construction 200 (every batch of a short history is inserted one by one) or 8,
+		// alone (the history itself has to hand out 8 ids first) or with a warm-up of single adds that crosses
+		// the threshold of VAddBatch (9 > 8) or of VImport (41 > 40) before the generated history starts
+		size := rapid.SampledFrom([][2]int{{0, 0}, {0, 0}, {0, 0}, {8, 0}, {8, 9}, {8, 9}, {8, 9}, {8, 41}}).Draw(t, "size")
+		c.EfC = size[0]
+		kinds := []string{"add", "add", "add", "add", "batch", "batch", "set", "set", "set", "set", "set", "del", "del", "vacuum", "import", "snapshot", "rewrite", "compress", "restart", "restart"}
 		rawOp := rapid.Custom(func(t *rapid.T) c08Raw {
 			r := c08Raw{K: rapid.SampledFrom(kinds).Draw(t, "opkind")}
 			switch r.K {
@@ -423,13 +483,23 @@ func c08GenCase() *rapid.Generator[c08Case] {
 				r.Meta = c08GenMeta(t, 1, lists, twin)
 			case "del":
 				r.Pick = rapid.IntRange(0, 23).Draw(t, "pick")
+			case "batch", "import":
+				r.Pick = rapid.IntRange(0, 23).Draw(t, "pick")
+				n := rapid.SampledFrom([]int{1, 2, 2, 3, 3, 4, 5}).Draw(t, "nitems")
+				for i := 0; i < n; i++ {
+					r.Items = append(r.Items, c08Item{Vec: c08GenVec(t), Meta: c08GenMeta(t, 0, lists, twin)})
+				}
 			}
 			return r
 		})
 		addOp := rapid.Custom(func(t *rapid.T) c08Raw {
 			return c08Raw{K: "add", Pick: rapid.IntRange(0, 23).Draw(t, "pick"), Vec: c08GenVec(t), Meta: c08GenMeta(t, 1, lists, twin)}
 		})
-		raw := rapid.SliceOfN(addOp, 2, 8).Draw(t, "init") // something to select from
+		var raw []c08Raw
+		for i := 0; i < size[1]; i++ { // warm-up: filters are evaluated after its last add only
+			raw = append(raw, c08Raw{K: "add", ID: c08WarmID(i), Quiet: i < size[1]-1, Vec: c08GenVec(t), Meta: c08GenMeta(t, 0, lists, twin)})
+		}
+		raw = append(raw, rapid.SliceOfN(addOp, 2, 8).Draw(t, "init")...) // something to select from
 		raw = append(raw, rapid.SliceOfN(rawOp, 3, 24).Draw(t, "ops")...)
 		for _, k := range c08Tails[rapid.IntRange(0, len(c08Tails)-1).Draw(t, "tail")] {
 			raw = append(raw, c08Raw{K: k})
@@ -445,6 +515,16 @@ func c08GenCase() *rapid.Generator[c08Case] {
 			sort.Strings(ks)
 			for _, k := range ks {
 				seen = append(seen, c08Seen{k, op.Meta[k]})
+			}
+			for _, it := range op.Items {
+				ks = ks[:0]
+				for k := range it.Meta {
+					ks = append(ks, k)
+				}
+				sort.Strings(ks)
+				for _, k := range ks {
+					seen = append(seen, c08Seen{k, it.Meta[k]})
+				}
 			}
 		}
 		clause := rapid.Custom(func(t *rapid.T) c08Clause { return c08GenClause(t, seen) })
@@ -487,6 +567,15 @@ func (m *c08Model) applicable(op c08Op) bool {
 		return m.Live[op.ID] == nil && op.ID != "" && len(op.Vec) == 3
 	case "set", "del":
 		return m.Live[op.ID] != nil
+	case "batch", "import":
+		ids := map[string]bool{}
+		for _, it := range op.Items {
+			if it.ID == "" || len(it.Vec) != 3 || m.Live[it.ID] != nil || ids[it.ID] {
+				return false
+			}
+			ids[it.ID] = true
+		}
+		return len(op.Items) > 0
 	case "compress":
 		return !m.Compressed && len(m.Live) > 0
 	case "vacuum", "snapshot", "rewrite", "restart":
@@ -510,6 +599,11 @@ func (m *c08Model) apply(op c08Op) {
 	switch op.K {
 	case "add":
 		m.Live[op.ID] = c08CloneMeta(op.Meta)
+		m.Version++
+	case "batch", "import":
+		for _, it := range op.Items {
+			m.Live[it.ID] = c08CloneMeta(it.Meta)
+		}
 		m.Version++
 	case "set":
 		for k, v := range c08CloneMeta(op.Meta) {
